@@ -620,6 +620,15 @@ func (g *gen) genStructLike() {
 	if g.cfg.SelfRef && k == KStruct && g.p(1, 6, "selfref") {
 		f := &Field{Name: g.fieldName(), Explicit: true, Req: ReqOptional}
 		f.ID = 30000 + int32(g.intn(0, 99, "selfid"))
+		for taken := true; taken; {
+			taken = false
+			for _, x := range d.Fields {
+				if x.ID == f.ID {
+					taken = true
+					f.ID++
+				}
+			}
+		}
 		switch g.intn(0, 2, "selfshape") {
 		case 0:
 			f.Type = &Type{Ref: d}
